@@ -6,7 +6,7 @@ import ast
 from sa.astx import call_attr, call_name, dotted, src, walk_local
 from sa.effects import class_accesses
 from sa.selftest import Mutant, Silent
-from sa.props._lib_j import (asserted_eq, catching_handler, edge_asserts, is_self_attr, no_exc, node_calls, body_always_entered, normalise, run_sections,
+from sa.props._lib_j import (flag_search, flags_at, flag_value, asserted_eq, catching_handler, edge_asserts, is_self_attr, no_exc, node_calls, body_always_entered, normalise, run_sections,
                              normal_exits, params, resolve, rsrc)
 
 PROPERTY = "C50"
@@ -71,24 +71,38 @@ def _s_lock(ctx, S):
     LOCKPATH = src(cc.args[1]) if len(cc.args) == 2 else "self.name"
 
     # (a) success only through the non-raising edge of the create
-    def through_create_only(target):
-        reach = g.reach([g.entry], edge_ok=lambda a, b, l: not (a == cn and l != "exc"))
-        return target not in reach
+    # All path questions are asked flag-consistently (flag_search): a loop driven by an outcome / done local (None -> True / False) is walked with
+    # the value of that local known, so `while outcome is None:` ... `return outcome` reads like `while True:` ... `return True` / `return False`.
+    def failed_create(a, b, l):
+        return not (a == cn and l != "exc")
+
+    def without_create(target, accept=None):
+        """a path from the entry to ``target`` that never leaves the symlink() through its non-raising edge (None: there is none)"""
+        return flag_search(g, [g.entry], [target], edge_ok=failed_create, accept=accept)
+
+    def value_of(st):
+        return st.value if isinstance(st, ast.Return) and st.value is not None else ast.Constant(None)
     sets = g.ids(lambda n: n.kind == "stmt" and isinstance(n.ast, ast.Assign) and any(is_self_attr(t, "locked") for t in n.ast.targets))
     ctx.check(bool(sets), "acquire/locked-set", q, "lock() never records self.locked = True")
     for s in sets:
         st = g.node(s).ast
-        ctx.check(src(st.value) == "True" and through_create_only(s), "acquire/only-through-atomic-create", ctx.construct(q, st),
+        w = without_create(s)
+        ctx.check(src(st.value) == "True" and w is None, "acquire/only-through-atomic-create", ctx.construct(q, st),
                   "self.locked = True can be reached without the symlink() of this very attempt having succeeded (e.g. after its error was "
                   "swallowed, or straight after removing a stale lock): two processes can both believe they hold the lock",
-                  witness=g.describe(g.path([g.entry], [s], edge_ok=lambda a, b, l: not (a == cn and l != "exc"))))
+                  witness=g.describe(w))
     for x in normal_exits(g):
         st = g.node(x).ast
-        if isinstance(st, ast.Return) and st.value is not None and src(st.value) == "False":
+        val = value_of(st)
+        if isinstance(val, ast.Constant) and val.value is False:
             continue
         where = ctx.construct(q, st) if st is not None else q + " | <end of function>"
-        ctx.check(isinstance(st, ast.Return) and src(st.value) == "True" and through_create_only(x) and g.must_precede(sets, [x], exc=False) is None,
-                  "acquire/true-only-when-held", where, "lock() can report success without having created the link (and recorded locked)")
+        not_false = lambda nid, env, val=val: flag_value(val, env) != (True, False)                  # noqa: E731
+        undecided = lambda nid, env, val=val: flag_value(val, env) not in ((True, False), (True, True))   # noqa: E731
+        w = flag_search(g, [g.entry], [x], accept=undecided) or without_create(x, accept=not_false) or \
+            flag_search(g, [g.entry], [x], avoid=sets, edge_ok=no_exc, accept=not_false)
+        ctx.check(w is None, "acquire/true-only-when-held", where, "lock() can report success without having created the link (and recorded locked)",
+                  witness=g.describe(w))
     # every failure of the create is EEXIST-handled, answered False, or re-raised: covered by through_create_only + this:
     h = catching_handler(cc, f, "OSError")
     ctx.check(h is not None, "acquire/create-errors-handled", q, "an existing lock (EEXIST) makes lock() raise instead of answering False / breaking a stale lock")
@@ -125,7 +139,7 @@ def _s_lock(ctx, S):
                   "the lock link is removed without kill(pid, 0) having failed with ESRCH (e.g. on EPERM the owner is alive): a live holder's lock "
                   "is broken and two processes hold it")
         # after a successful removal the create is retried (never a direct claim) - liveness + safety
-        w = g.path([rn], {g.exit}, avoid=[cn], edge_ok=no_exc, strict=True)
+        w = flag_search(g, [(rn, e_) for e_ in flags_at(g, rn)], {g.exit}, avoid=[cn], edge_ok=no_exc)
         ctx.check(w is None, "stale/retry-create-after-break", where,
                   "after removing the stale link lock() can return without re-trying the atomic create", witness=g.describe(w))
         # ---- F50: the removal must be an atomic compare-and-remove
@@ -142,10 +156,12 @@ def _s_lock(ctx, S):
         ctx.check(h_ is not None, "stale/read-errors-handled", ctx.construct(q, "readlink(<lock path>)"),
                   "a lock that vanishes between the failed create and readlink makes lock() raise instead of retrying")
         ctx.check(c.args and src(c.args[0]) == LOCKPATH, "stale/read-same-path", ctx.construct(q, c), "readlink reads another path than the one being locked")
-    false_returns = [x for x in normal_exits(g) if isinstance(g.node(x).ast, ast.Return) and src(g.node(x).ast.value) == "False"]
+    ends = list(normal_exits(g))
+    says_false = lambda nid, env: flag_value(value_of(g.node(nid).ast), env) == (True, False)      # noqa: E731
     for kn, kc in kills:
-        w = g.path([kn], {g.exit}, avoid=false_returns, edge_ok=no_exc, strict=True)
-        ctx.check(bool(false_returns) and w is None and g.path([kn], false_returns, edge_ok=no_exc) is not None, "stale/live-owner-answers-false",
+        starts = [(kn, e_) for e_ in flags_at(g, kn)]
+        w = flag_search(g, starts, ends, edge_ok=no_exc, accept=lambda nid, env: not says_false(nid, env))
+        ctx.check(w is None and flag_search(g, starts, ends, edge_ok=no_exc, accept=says_false) is not None, "stale/live-owner-answers-false",
                   ctx.construct(q, "kill(<owner pid>, 0) succeeded"),
                   "when the probe shows the owner alive, lock() does not answer False on every path (it may break or claim a live lock)", witness=g.describe(w))
 
